@@ -7,11 +7,14 @@ export GOFLAGS=-mod=mod GOPROXY=off GOSUMDB=off GOTOOLCHAIN=local
 V=$(cd "$(dirname "$0")/.." && pwd)
 cd $V
 out=$1; shift
+# CHECKS="C01 C13" restricts the checks that are run; CROSSDIR separates parallel invocations
+CHECKS=${CHECKS:-$(for i in $(seq -w 1 20); do echo C$i; done)}
+CROSSDIR=${CROSSDIR:-/tmp/crossm}
 names="$@"; [ -z "$names" ] && names=$(ls seeded | grep -- '-3$')
 : > $out
 for n in $names; do
-  W=/tmp/crossm/$n
-  mkdir -p /tmp/crossm
+  W=$CROSSDIR/$n
+  mkdir -p $CROSSDIR
   git -C /repo worktree remove --force $W >/dev/null 2>&1
   git -C /repo worktree add --detach $W >/dev/null 2>&1 || { echo "$n: cannot create worktree" >> $out; continue; }
   if ! git -C $W apply --3way $V/seeded/$n/patch.diff >/dev/null 2>&1; then
@@ -20,7 +23,8 @@ for n in $names; do
     continue
   fi
   line="$n:"
-  for i in $(seq -w 1 20); do
+  for ci in $CHECKS; do
+    i=${ci#C}
     o=$(VERIF_REPO=$W timeout 900 ./bin/vcheck C$i --tier quick 2>&1); code=$?
     if [ $code -ne 0 ]; then
       sig=$(echo "$o" | grep '^VIOLATION' | head -1 | sed -E 's/.*scenario=([^ ]+) (\[[^]]*\]).*/\1\2/' | cut -c1-80)
@@ -31,5 +35,5 @@ for n in $names; do
   git -C /repo worktree remove --force $W >/dev/null 2>&1
 done
 git -C /repo worktree prune
-rm -rf /tmp/crossm
+rm -rf $CROSSDIR
 echo done >> $out
